@@ -84,6 +84,15 @@ def derive_cases(case, res):
                 continue
         elif kind == "commit":
             key = ("commit", n)
+        elif kind == "execute" and head == "BEGIN":
+            # the documented SQLite recipe emits BEGIN from a "begin" event handler: let that statement fail
+            nb = sum(1 for k2, h2, _c, n2 in res["points"] if k2 == "execute" and h2 == "BEGIN" and n2 <= n)
+            if ("execute:BEGIN", nb) not in seen:
+                seen.add(("execute:BEGIN", nb))
+                c = dict(case)
+                c["faults"] = [["execute:BEGIN", nb, "error"]]
+                yield c
+            continue
         else:
             continue
         if key[0] == "execute:INSERT":
@@ -272,8 +281,8 @@ def run_case(case):
                             raised = e
                             out = "raised:" + type(e).__name__
                             if len(plan.fired) > fired_before:
-                                # injected driver error: statement had no effect; autobegin may have happened
-                                if root() is None and not closed[0]:
+                                # injected driver error: statement had no effect; autobegin happened unless it was the BEGIN that failed
+                                if root() is None and not closed[0] and plan.fired[-1][0] != "execute:BEGIN":
                                     stack.append(H("root", "auto"))
                             elif not will_raise:
                                 V("unexpected_raise", "execute raised %s where the model allows it: %s" % (type(e).__name__, str(e)[:100]),
